@@ -1409,6 +1409,38 @@ class LeafList:
     def length(self, I, node):
         return Z(nleaves(self.t))
 
+    def for_loop(self, I, st, env, module, qual):
+        """map loop over the leaves: the body runs once for an arbitrary leaf (leaf number i of the view, 0 <= i < nleaves); it must append the token of
+        that leaf to one list that was empty before the loop, complete normally and assign nothing else: the list is then `the tokens of the leaves in order`."""
+        import ast
+        from vc.pyvc import _Break, _Continue, _Return
+        if st.orelse:
+            raise CheckerError('for/else over tree.leaves')
+        i = I.fresh('leaf_i', I_)
+        I.ctx.assume(z3.And(i >= 0, i < nleaves(self.t)))
+        lt = leaf_tag(self.t, i)
+        before = dict(env.vars)
+        empties = {k: v for k, v in env.vars.items() if isinstance(v, list) and not v}
+        I.assign(st.target, SymTree(T.Leaf(lt)), env, module)
+        loopvars = {n.id for n in ast.walk(st.target) if isinstance(n, ast.Name)}
+        try:
+            I.exec_block(st.body, env, module, qual)
+        except (_Break, _Continue, _Return):
+            raise CheckerError('loop over tree.leaves left early: outside the map loop rule')
+        changed = sorted(k for k in env.vars if k not in loopvars and (k not in before or env.vars[k] is not before[k]))
+        if changed:
+            raise CheckerError(f'loop over tree.leaves assigns {changed}: outside the map loop rule')
+        filled = [k for k, v in empties.items() if v]
+        if len(filled) != 1:
+            raise CheckerError('loop over tree.leaves does not fill exactly one list that was empty before it')
+        v = env.vars[filled[0]]
+        if len(v) != 1 or not isinstance(v[0], SymToken):
+            raise CheckerError('loop over tree.leaves appends something other than one token per leaf')
+        I.oblige('tokens-of-the-leaves-in-order', v[0].tag == lt, st, extra='the element appended for leaf i is not the token of leaf i')
+        for k in list(env.vars):
+            if env.vars[k] is v:
+                env.vars[k] = SymTokens(self.t)
+
     def comprehension(self, I, e, env, module):
         import ast
         g = e.generators[0]
@@ -1451,8 +1483,60 @@ def leaves_clauses(arr0, n0, arr1, n1, t):
             ('leaves-in-order', z3.ForAll([i], z3.Implies(z3.And(i >= n0, i < n0 + k), z3.Select(arr1, i) == leaf_tag(t, i - n0))))]
 
 
+class _SymSeg:
+    """the one element of a concrete python list that stands for `all elements of a symbolic list` (a list object that a callee filled in place)"""
+    def __init__(self, sym):
+        self.sym = sym
+
+
+def unwrap_list(v):
+    if isinstance(v, list) and len(v) == 1 and isinstance(v[0], _SymSeg):
+        return v[0].sym
+    return v
+
+
+def find_leaf_collector():
+    """the recursive helper of Tree.leaves, found by role: the one function Tree.leaves calls that calls itself.  It is either nested in the property
+    (the list is a closure variable) or a module-level function / static method taking the node and the list.  Returns (qualname, mode, tree_pos, list_pos)."""
+    import ast
+    from vc.sorts import parse_source
+    mod = parse_source(TREL)
+    cls = [n for n in mod.body if isinstance(n, ast.ClassDef) and n.name == 'Tree']
+    if not cls:
+        raise CheckerError('class Tree not found in depccg/tree.py')
+    leaves = [n for n in cls[0].body if isinstance(n, ast.FunctionDef) and n.name == 'leaves']
+    if not leaves:
+        raise CheckerError('function under contract not found: depccg/tree.py::Tree.leaves')
+    leaves = leaves[0]
+    nested = {n.name: n for n in leaves.body if isinstance(n, ast.FunctionDef)}
+    toplevel = {n.name: n for n in mod.body if isinstance(n, ast.FunctionDef)}
+    self_name = leaves.args.args[0].arg
+    calls = [n for n in ast.walk(leaves) if isinstance(n, ast.Call) and isinstance(n.func, ast.Name)]
+
+    def recursive(fn):
+        return any(isinstance(n, ast.Call) and isinstance(n.func, ast.Name) and n.func.id == fn.name for n in ast.walk(fn))
+    found = []
+    for c in calls:
+        inside_nested = any(c in list(ast.walk(fn)) for fn in nested.values())
+        if inside_nested:
+            continue
+        if c.func.id in nested and recursive(nested[c.func.id]):
+            found.append((f'Tree.leaves.{c.func.id}', 'closure', 0, None))
+        elif c.func.id in toplevel and recursive(toplevel[c.func.id]):
+            pos = [k for k, a in enumerate(c.args) if isinstance(a, ast.Name) and a.id == self_name]
+            if len(c.args) != 2 or c.keywords or len(pos) != 1:
+                raise CheckerError(f'Tree.leaves calls its helper {c.func.id} with something other than (the tree, the list)')
+            found.append((c.func.id, 'param', pos[0], 1 - pos[0]))
+    if len(found) != 1:
+        raise CheckerError(f'function under contract not found: the recursive leaf collector of depccg/tree.py::Tree.leaves ({len(found)} candidates)')
+    return found[0]
+
+
 class LeavesRec(Contract):
-    rel, qualname = TREL, 'Tree.leaves.rec'
+    rel = TREL
+
+    def __init__(self):
+        self.qualname, self.mode, self.tpos, self.lpos = find_leaf_collector()
 
     def closure_env(self, I, f):
         m = I.load_module('depccg.tree')
@@ -1467,10 +1551,14 @@ class LeavesRec(Contract):
             t = z3.Const('node', T)
             arr, n = z3.Const('result0', z3.ArraySort(I_, I_)), z3.Int('len0')
             lst = SymIntList(arr, n)
-            self._env.set(self._list, lst)
             self._pre = (arr, n, t, lst)
             unfold_leaf_tag(I, t)
-            return [SymTree(t)], {}, [n >= 0], None
+            if self.mode == 'closure':
+                self._env.set(self._list, lst)
+                return [SymTree(t)], {}, [n >= 0], None
+            args = [None, None]
+            args[self.tpos], args[self.lpos] = SymTree(t), lst
+            return args, {}, [n >= 0], None
         yield Case('any-node', build)
 
     def post(self, I, case, args, result):
@@ -1479,16 +1567,26 @@ class LeavesRec(Contract):
 
     def apply(self, I, args, kwargs, node):
         f = I.callee
-        if len(args) != 1 or not isinstance(args[0], SymTree):
-            raise CheckerError('rec called with something that is not a tree view')
-        t = args[0].e
-        name = the_one(closure_names(I, f)[0], 'the list of leaves', self.name)
-        lst = f.env.lookup(name)
-        if isinstance(lst, list):
-            if lst:
-                raise CheckerError('rec called with a non-empty concrete list')
-            lst = SymIntList(z3.K(I_, z3.IntVal(0)), z3.IntVal(0))
-            f.env.set(name, lst)
+        if kwargs or len(args) != (1 if self.mode == 'closure' else 2) or not isinstance(args[self.tpos], SymTree):
+            raise CheckerError('the leaf collector is called with something that is not a tree view')
+        t = args[self.tpos].e
+        if self.mode == 'closure':
+            name = the_one(closure_names(I, f)[0], 'the list of leaves', self.name)
+            lst = f.env.lookup(name)
+            if isinstance(lst, list):
+                if lst:
+                    raise CheckerError('rec called with a non-empty concrete list')
+                lst = SymIntList(z3.K(I_, z3.IntVal(0)), z3.IntVal(0))
+                f.env.set(name, lst)
+        else:
+            lst = args[self.lpos]
+            if isinstance(lst, list):
+                # the caller's own list object, filled in place: it becomes [segment] (the caller's variable cannot be rebound from here)
+                if not lst:
+                    lst.append(_SymSeg(SymIntList(z3.K(I_, z3.IntVal(0)), z3.IntVal(0))))
+                lst = unwrap_list(lst)
+            if not isinstance(lst, SymIntList):
+                raise CheckerError('the leaf collector is called with a list that is not empty and not symbolic')
         arr0, n0 = lst.arr, lst.n
         arr1 = I.fresh('result', z3.ArraySort(I_, I_))
         lst.arr, lst.n = arr1, n0 + nleaves(t)
@@ -1508,6 +1606,7 @@ class TreeLeaves(Contract):
 
     def post(self, I, case, args, result):
         t = self._t
+        result = unwrap_list(result)
         if not isinstance(result, SymIntList):
             return [('list', z3.BoolVal(False))]
         i = z3.Int('i!tl')
